@@ -76,13 +76,55 @@ Theorem C05_remove_survivors : forall fuel now p id ch r ds,
 Proof. exact remove_dt_filter. Qed.
 Print Assumptions C05_remove_survivors.
 
-(* ---- the oracle run over implementation traces: its proved part accepts every trace of the model,
-   for all operation sequences of C05's quantifier (monotone clock, results not from the future, fresh names) ---- *)
+(* ---- start / end once.  For every operation of C05's quantifier, from every state whose trigger and entry
+   times lie in (0, now] (DtInv2, an invariant of all runs, see C05_oracle_accepts_model):
+   - exactly one DowntimeStart request per downtime that becomes triggered in the step (none while paused),
+     PROVIDED the step shows neither the lost-start nor the start-at-end-instant signature (both are
+     recorded findings, refuted below);
+   - OnDowntimeRemoved exactly for the downtimes that disappear, which only dt_remove / the clean-up timer
+     cause; exactly one DowntimeEnd request per removed downtime that had been triggered, none for one that
+     never triggered. ---- *)
+Theorem C05_start_end_once : forall c now prev f o,
+  DtInv2 now f -> c5_wf_step prev (c5_mk c now f o) = true ->
+  let s := c5_mk c now f o in
+  (c5_sig_loststart (c_kind (fc_base c)) s = false -> c5_sig_endinstant s = false -> c5_chk_start s = true) /\
+  c5_chk_removed s = true /\ c5_chk_end s = true.
+Proof. exact start_end_once_step. Qed.
+Print Assumptions C05_start_end_once.
+
+(* ---- clean-up and ownership: the clean-up timer removes the downtime iff it is expired; a removal "by user"
+   never removes a downtime owned by a schedule (the call on an owned downtime is refused and changes nothing) ---- *)
+Theorem C05_cleanup : forall c now prev f o,
+  DtInv now f -> c5_wf_step prev (c5_mk c now f o) = true ->
+  c5_chk_owned (c5_mk c now f o) = true /\ c5_chk_cleanup (c5_mk c now f o) = true.
+Proof. exact cleanup_owned_step. Qed.
+Print Assumptions C05_cleanup.
+
+(* adding a downtime: a fixed one is triggered at once iff its window is open; a flexible one iff its window is
+   open and the object already has a problem - PROVIDED the object has been checked (negated signature of the
+   recorded finding pending-flexible) *)
+Theorem C05_trigger_on_add : forall c now prev f o,
+  DtInv now f -> c5_wf_step prev (c5_mk c now f o) = true -> c5_sig_pending (c5_mk c now f o) = false ->
+  c5_chk_add (c5_mk c now f o) = true.
+Proof. exact step_check_add. Qed.
+Print Assumptions C05_trigger_on_add.
+
+(* ---- the oracle run over implementation traces: for all operation sequences of C05's quantifier (monotone
+   positive clock, results not from the future, fresh names: c5_wf_run) that show none of the recorded findings'
+   signatures (c5_clean_run), every step of the model's trace passes every check of the oracle except check 10
+   (OnDowntimeTriggered events, validated on the generated population only) ---- *)
 Theorem C05_oracle_accepts_model : forall c h prev f,
+  DtInv2 prev f -> c5_wf_run c prev f h = true -> c5_clean_run c f h = true ->
+  Forall (fun s => c5_step_all (c_kind (fc_base c)) s = true) (c5_model_trace c f h).
+Proof. exact model_trace_all_checks. Qed.
+Print Assumptions C05_oracle_accepts_model.
+
+(* without the hypothesis on the findings: checks 1, 2, 7, 11 hold on every run *)
+Theorem C05_oracle_accepts_model_unconditional : forall c h prev f,
   DtInv prev f -> c5_wf_run c prev f h = true ->
   Forall (fun s => c5_step_proved (c_kind (fc_base c)) s = true) (c5_model_trace c f h).
 Proof. exact model_trace_proved_checks. Qed.
-Print Assumptions C05_oracle_accepts_model.
+Print Assumptions C05_oracle_accepts_model_unconditional.
 
 (* ---- recorded findings: the faithful model violates the statement; concrete witnesses ---- *)
 Theorem C05_pending_flexible_refuted :
@@ -114,6 +156,10 @@ Print Assumptions C05_start_at_end_instant_refuted.
 (* non-vacuity: a reachable run with a fixed downtime started by the timer, a flexible one chained to it,
    a non-OK result, a depth read, a clean-up and a removal meets every premise, shows none of the findings'
    signatures, and the complete oracle accepts it with two DowntimeStart and two DowntimeEnd requests *)
+Example C05_nonvacuous_premises :
+  DtInv2 0 init_full /\ c5_wf_run wit_cfg 0 init_full wit_clean = true /\ c5_clean_run wit_cfg init_full wit_clean = true.
+Proof. exact clean_run_premises. Qed.
+
 Example C05_nonvacuous :
   c5_wf_run wit_cfg 0 init_full wit_clean = true /\
   c5_oracle KService (c5_model_trace wit_cfg init_full wit_clean) = [] /\
